@@ -352,6 +352,13 @@ func c12Gen(g *core.Gen) {
 		g.Emit(&c12Case{Kind: "partition", Len: l, D: 3, P: 2, GLo: 1, GHi: 41})
 		g.Emit(&c12Case{Kind: "partition", Len: l, D: 2, P: 2, GLo: 4090, GHi: 4100})
 	}
+	// goroutine counts around the limits of 16-bit (and 17-bit) counters
+	for _, l := range []int{34, 1000} {
+		g.Emit(&c12Case{Kind: "partition", Len: l, D: 3, P: 2, GLo: 65534, GHi: 65539})
+		g.Emit(&c12Case{Kind: "partition", Len: l, D: 3, P: 2, GLo: 131071, GHi: 131074})
+		g.Emit(&c12Case{Kind: "partition", Len: l, D: 3, P: 2, GLo: 254, GHi: 259})
+		g.Emit(&c12Case{Kind: "partition", Len: l, D: 3, P: 2, GLo: 32766, GHi: 32770})
+	}
 	// many input rows x long shards (working sets beyond cache sizes: any blocking / tiling of the single- and
 	// multi-goroutine paths must agree): every row count 1..40 at 64 KiB, 60..130 at 4 KiB
 	for d := 1; d <= 40; d++ {
